@@ -208,3 +208,48 @@ Proof.
   - vm_compute. reflexivity.
   - exact Hw.
 Qed.
+
+Lemma bmc_reified : { t : tree (res (option Z)) | forall w, eval t32_bmc_env (Val None) t w = dec_thumb_branches_and_miscellaneous_control w }.
+Proof.
+  eexists. intros w. unfold dec_thumb_branches_and_miscellaneous_control. cbv zeta.
+  match goal with |- eval _ _ ?T w = ?rhs => let e := eval unfold t32_bmc_env in t32_bmc_env in let t := reify_t (res (option Z)) w e rhs in unify T t end.
+  reflexivity.
+Defined.
+Theorem dec_thumb32_bmc_table w : 0 <= w < 2 ^ 32 ->
+  dec_thumb_branches_and_miscellaneous_control w = eval_leaf t32_bmc_env (Val None) (lookup t32_bmc_table (LRet (Val None)) w) w.
+Proof.
+  intros Hw. rewrite <- (proj2_sig bmc_reified w).
+  apply (decode_correct 32%nat res_eqb res_eqb_sound t32_bmc_env (Val None) t32_bmc_table (LRet (Val None)) (proj1_sig bmc_reified) 400).
+  - vm_compute. reflexivity.
+  - exact Hw.
+Qed.
+
+Lemma cps_reified : { t : tree (res (option Z)) | forall w, eval no_env_res (Val None) t w = dec_thumb_change_processor_state_and_hints w }.
+Proof.
+  eexists. intros w. unfold dec_thumb_change_processor_state_and_hints. cbv zeta.
+  match goal with |- eval _ _ ?T w = ?rhs => let e := eval unfold no_env_res in no_env_res in let t := reify_t (res (option Z)) w e rhs in unify T t end.
+  reflexivity.
+Defined.
+Theorem dec_thumb32_cps_table w : 0 <= w < 2 ^ 32 ->
+  dec_thumb_change_processor_state_and_hints w = eval_leaf no_env_res (Val None) (lookup t32_cps_table (LRet (Val None)) w) w.
+Proof.
+  intros Hw. rewrite <- (proj2_sig cps_reified w).
+  apply (decode_correct 32%nat res_eqb res_eqb_sound no_env_res (Val None) t32_cps_table (LRet (Val None)) (proj1_sig cps_reified) 400).
+  - vm_compute. reflexivity.
+  - exact Hw.
+Qed.
+
+Lemma mctl_reified : { t : tree (res (option Z)) | forall w, eval no_env_res (Val None) t w = dec_thumb_miscellaneous_control_instructions w }.
+Proof.
+  eexists. intros w. unfold dec_thumb_miscellaneous_control_instructions. cbv zeta.
+  match goal with |- eval _ _ ?T w = ?rhs => let e := eval unfold no_env_res in no_env_res in let t := reify_t (res (option Z)) w e rhs in unify T t end.
+  reflexivity.
+Defined.
+Theorem dec_thumb32_mctl_table w : 0 <= w < 2 ^ 32 ->
+  dec_thumb_miscellaneous_control_instructions w = eval_leaf no_env_res (Val None) (lookup t32_mctl_table (LRet (Val None)) w) w.
+Proof.
+  intros Hw. rewrite <- (proj2_sig mctl_reified w).
+  apply (decode_correct 32%nat res_eqb res_eqb_sound no_env_res (Val None) t32_mctl_table (LRet (Val None)) (proj1_sig mctl_reified) 400).
+  - vm_compute. reflexivity.
+  - exact Hw.
+Qed.
